@@ -496,10 +496,12 @@ class Blockwise(Expr):
         # We either have to create a new Align layer (ok) or combine divisions
         # and graph into a single operation.
         dependencies = self.dependencies()
-        for arg in dependencies:
-            if not self._broadcast_dep(arg):
-                assert arg.divisions == dependencies[0].divisions
-        return dependencies[0].divisions
+        # the first dependency may itself be broadcasted (scalar + series)
+        aligned = [arg for arg in dependencies if not self._broadcast_dep(arg)]
+        reference = aligned[0] if aligned else dependencies[0]
+        for arg in aligned:
+            assert arg.divisions == reference.divisions
+        return reference.divisions
 
     @functools.cached_property
     def _name(self):
